@@ -24,16 +24,19 @@ def main():
     tier = "quick"
     if "--tier" in sys.argv:
         tier = sys.argv[sys.argv.index("--tier") + 1]
-    which = ALL if "--all" in sys.argv else [pid]
-    src = sys.argv[sys.argv.index("--from") + 1] if "--from" in sys.argv else "/tmp/seed/%s" % pid
+    which = ALL if "--all" in sys.argv else ([pid] if "--checks" not in sys.argv else
+                                            sys.argv[sys.argv.index("--checks") + 1].split(","))
     name = sys.argv[sys.argv.index("--name") + 1] if "--name" in sys.argv else pid
     dest = os.path.join(VERIF, "seeded", name)
+    # --from <worktree>: (re)import the change from a sub-agent's worktree; otherwise what is stored is re-evaluated
+    src = sys.argv[sys.argv.index("--from") + 1] if "--from" in sys.argv else "/nonexistent"
+    demo_id = name.split("-")[0]
     if os.path.isdir(src):
         diff = sh(["git", "-C", src, "diff"]).stdout
-        demo_src = os.path.join(src, "demo_%s.py" % pid)
+        demo_src = os.path.join(src, "demo_%s.py" % demo_id)
     else:   # re-evaluate what is already stored
         diff = open(os.path.join(dest, "patch.diff")).read()
-        demo_src = os.path.join(dest, "demo_%s.py" % pid)
+        demo_src = os.path.join(dest, "demo_%s.py" % demo_id)
     if not diff.strip():
         print("no diff for", pid)
         return 2
@@ -42,7 +45,7 @@ def main():
         open(os.path.join(dest, "patch.diff"), "w").write(diff)
         if os.path.abspath(demo_src) != os.path.abspath(os.path.join(dest, os.path.basename(demo_src))):
             shutil.copy(demo_src, dest)
-    demo = os.path.join(dest, "demo_%s.py" % pid)
+    demo = os.path.join(dest, "demo_%s.py" % demo_id)
     scratch = tempfile.mkdtemp(prefix="seedchk_%s_" % pid, dir="/tmp")
     meta = {"property": pid, "ran": []}
     try:
@@ -89,7 +92,7 @@ def main():
     mp = os.path.join(dest, "meta.json")
     if os.path.exists(mp):
         old = json.load(open(mp))
-    for k in ("needs_to_manifest", "summary"):
+    for k in ("needs_to_manifest", "summary", "breaks_property", "written_by"):
         if k in old:
             meta[k] = old[k]
     if "checks" in old and not "--all" in sys.argv:
